@@ -6,6 +6,7 @@ from idpyoidc.message import Message
 from idpyoidc.message import oauth2
 from idpyoidc.message.oauth2 import AuthorizationRequest
 from idpyoidc.server.oauth2.authorization import Authorization
+from idpyoidc.time_util import utc_time_sans_frac
 
 
 class PushedAuthorization(Authorization):
@@ -41,7 +42,8 @@ class PushedAuthorization(Authorization):
         _request.verify(keyjar=self.upstream_get("attribute", "keyjar"))
 
         _urn = "urn:uuid:{}".format(uuid.uuid4())
-        # Store the parsed and verified request
+        # Store the parsed and verified request together with the end of its announced lifetime
+        _request["__par_expires_at"] = utc_time_sans_frac() + self.ttl
         self.upstream_get("context").par_db[_urn] = _request
 
         return {
